@@ -218,6 +218,8 @@ class Recorder:
         self.connected_flag = False
         self.project_on = bool(sc.get('project'))
         self.leaked = 0
+        self.env_at = {}         # internal-event count -> environment ops to apply right after that event
+        self.pre = {}            # 'log'/'param' -> environment ops applied when that table's fetcher starts
 
     def path(self, d):
         return None if d == 'none' else self.dirs[d]
@@ -280,6 +282,8 @@ class Recorder:
         self.ev.append(e)
         if internal:
             self.nint += 1
+            for op in self.env_at.pop(str(self.nint), []):
+                env_op(self, op)
             if self.crash_after is not None and self.nint == self.crash_after:
                 self.crashed = True
                 raise Crash()
@@ -412,6 +416,8 @@ def _install():
             r.kind = 'log' if self.port == sv.PORT_LOG else 'param'
             r.req[r.kind] = []
             r.last_ret = None
+            for op in r.pre.pop(r.kind, []):
+                env_op(r, op)
         return orig_start(self)
 
     def fin(self):
@@ -558,7 +564,22 @@ def _mut_ident_from_order(TC):
     TC._fetch_impl = fetch
 
 
-MUTANTS = {'short_suffix': _mut_short_suffix, 'partial_parse': _mut_partial_parse,
+def _mut_stat_escapes(TC):
+    import cflib.crazyflie.toccache as tcm
+    orig = TC._orig['fetch']
+
+    def fetch(self, crc):
+        hit = None
+        for name in self._cache_files:
+            if name.endswith('%08X.json' % crc):
+                hit = name
+        if hit and os.path.getsize(hit) == 0:           # looked at outside the try: a listed file that is gone raises
+            return None
+        return orig(self, crc)
+    TC._fetch_impl = fetch
+
+
+MUTANTS = {'stat_escapes': _mut_stat_escapes, 'short_suffix': _mut_short_suffix, 'partial_parse': _mut_partial_parse,
            'drop_extended': _mut_drop_extended, 'pytype_from_ctype': _mut_pytype_from_ctype,
            'error_escapes': _mut_error_escapes, 'write_ro': _mut_write_ro,
            'ident_from_order': _mut_ident_from_order}
@@ -674,8 +695,34 @@ def listing(p):
     return out
 
 
+ENV_OPS = ('cut', 'garbage', 'remove', 'copy')
+
+
+def _env_emit(r, e):
+    """while a process lives the directory serving as ro is frozen again and its new content becomes the
+    base of the never-written comparison (the environment's change is not a write of the cache)"""
+    alive = r.cf is not None
+    if alive:
+        _writable(r.path(r.rw))
+        _freeze_ro(r.path(r.ro))
+    e['rb'] = bool(alive and r.ro != 'none')
+    e['robase'] = listing(r.path(r.ro)) if e['rb'] else []
+    r.emit(e)
+
+
 def env_op(r, op):
-    """environment between processes: cut / garbage / remove / copy.  Ops that do not apply are skipped."""
+    try:
+        _env_op(r, op)
+    finally:
+        if r.cf is not None:               # also when the op did not apply: the modes were opened up for it
+            _writable(r.path(r.rw))
+            _freeze_ro(r.path(r.ro))
+
+
+def _env_op(r, op):
+    """the environment touches a cache file: cut / garbage / remove / copy -- between processes, or while a
+    TocCache object lives (idle, or between the start of a connection and a look-up).  Ops that do not
+    apply are skipped."""
     k = op[0]
     d, c = op[1], op[2]
     p = os.path.join(r.dirs[d], c + '.json')
@@ -695,7 +742,7 @@ def env_op(r, op):
             at = min(op[3], n) if op[3] >= 0 else max(0, n + op[3])
         with builtins.open(p, 'r+b') as f:
             f.truncate(at)
-        r.emit({'e': 'cut', 'dir': d, 'crc': c, 'k': at, 'of': n, 'cut': 0 if at == 0 else 1})
+        _env_emit(r, {'e': 'cut', 'dir': d, 'crc': c, 'k': at, 'of': n, 'cut': 0 if at == 0 else 1})
     elif k == 'garbage':
         if not complete:
             return
@@ -707,13 +754,13 @@ def env_op(r, op):
         # flavour = how the design spec models it: "falsy" = decodes to a value `if (cache_data)` rejects
         # (json null decodes to None, which is what a miss returns anyway)
         fl = 'falsy' if GARBAGE[op[3]] == 'falsy' and op[3] != 'json_null' else 'garbage'
-        r.emit({'e': 'garbage', 'dir': d, 'crc': c, 'variant': op[3], 'cls': GARBAGE[op[3]], 'flavour': fl})
+        _env_emit(r, {'e': 'garbage', 'dir': d, 'crc': c, 'variant': op[3], 'cls': GARBAGE[op[3]], 'flavour': fl})
     elif k == 'remove':
         if not exists:
             return
         os.remove(p)
         r.fileinfo.pop((d, c), None)
-        r.emit({'e': 'remove', 'dir': d, 'crc': c})
+        _env_emit(r, {'e': 'remove', 'dir': d, 'crc': c})
     elif k == 'copy':
         to = op[3]
         if not exists or to == d:
@@ -721,7 +768,7 @@ def env_op(r, op):
         os.makedirs(r.dirs[to], exist_ok=True)
         shutil.copyfile(p, os.path.join(r.dirs[to], c + '.json'))
         r.fileinfo[(to, c)] = dict(info) if info else None
-        r.emit({'e': 'copy', 'dir': d, 'crc': c, 'to': to})
+        _env_emit(r, {'e': 'copy', 'dir': d, 'crc': c, 'to': to})
     else:
         raise ValueError('unknown environment op %r' % (op,))
 
@@ -777,9 +824,13 @@ def run_process(r, ops, i):
                 r.wk = opt.get('wk')
                 r.connected_flag = False
                 r.req = {'log': [], 'param': []}
+                r.env_at = {k: list(v) for k, v in opt.get('env_at', {}).items()}
+                r.pre = {k: list(v) for k, v in opt.get('pre', {}).items()}
                 r.emit({'e': 'connect', 'lt': r.tab(expected_table(sc['tables'][lt])), 'lc': crc_str(lc),
                         'pt': r.tab(expected_table(sc['tables'][pt])), 'pc': crc_str(pc)})
                 i += 1
+                for eop in r.env_at.pop('0', []):
+                    env_op(r, eop)
                 if r.crash_after == 0:
                     ended = 'crash'
                     break
@@ -806,8 +857,16 @@ def run_process(r, ops, i):
                 ended = 'exit'
                 i += 1
                 break
+            elif op[0] in ENV_OPS:         # the environment acts while this TocCache object is idle
+                if link_open[0]:
+                    u = s.spawn(cf.close_link, 'user')
+                    s.run(until=lambda: u.finished, horizon=s.now + 5.0)
+                    r.emit({'e': 'close'})
+                    link_open[0] = False
+                env_op(r, op)
+                i += 1
             else:
-                break                      # an environment op / next start: the process ends first
+                break                      # the next start: this process ends first
         if ended is None:
             if link_open[0]:
                 u = s.spawn(cf.close_link, 'user')
@@ -834,7 +893,7 @@ def execute(sc, mutant=None):
         while i < len(ops):
             if ops[i][0] == 'start':
                 i = run_process(r, ops, i)
-            elif ops[i][0] in ('cut', 'garbage', 'remove', 'copy'):
+            elif ops[i][0] in ENV_OPS:
                 env_op(r, ops[i])
                 i += 1
             else:
@@ -930,7 +989,7 @@ def signature(trace, clause, at):
         elif x['e'] == 'garbage':
             state[k] = x['cls']
         elif x['e'] == 'remove':
-            state.pop(k, None)
+            state[k] = 'removed'            # a name the cache may still have in its list
         elif x['e'] == 'copy' and k in state:
             state[(x['to'], x['crc'])] = state[k]
     kinds = [e['kind']] if e.get('kind') else ['log', 'param']
@@ -1024,6 +1083,38 @@ def crash_everywhere_scenarios(tables, lt, lc, pt, pc, nmax=18):
         out.append({'tables': tables, 'family': 'crash:ro',
                     'ops': proc('none', 'B', ['connect', lt, lc, pt, pc ^ 0x55]) + [['start', 'B', 'A'], crash] +
                     proc('B', 'A', conn) + proc('A', 'none', conn)})
+    return out
+
+
+def toctou_scenarios(tables, lt, lc, pt, pc):
+    """the environment changes a cache file WITHIN the life of one TocCache object: the name is in its list
+    (globbed at construction or appended by insert) and the file is then removed / emptied / cut / turned
+    into garbage / replaced -- after construction, between the start of a connection and the look-up, or
+    between two connections of the same Crazyflie object; file in the rw directory, in the ro directory in
+    front of an rw directory, in the only (ro) directory"""
+    out = []
+    conn = ['connect', lt, lc, pt, pc]
+    both = [['copy', 'A', crc_str(lc), 'B'], ['copy', 'A', crc_str(pc), 'B']]
+    for target in ('log', 'param'):
+        cs = crc_str(lc if target == 'log' else pc)
+        for role in ('rw', 'ro+rw', 'ro'):
+            d = 'A' if role == 'rw' else 'B'
+            setup = proc('none', 'A', conn) + ([] if role == 'rw' else both) + \
+                ([['remove', 'A', cs]] if role == 'ro+rw' else [])
+            start = {'rw': ['start', 'none', 'A'], 'ro+rw': ['start', 'B', 'A'], 'ro': ['start', 'B', 'none']}[role]
+            dmgs = [['remove', d, cs], ['cut', d, cs, 0], ['cut', d, cs, 0.5], ['garbage', d, cs, 'empty'],
+                    ['garbage', d, cs, 'json_list'], ['garbage', d, cs, 'json_empty_object']]
+            if role == 'ro':
+                dmgs.append(['copy', 'A', cs, 'B'])          # replaced by an identical complete file
+            for dmg in dmgs:
+                fam = 'toctou:%s:%s' % (role, dmg[0])
+                out.append({'tables': tables, 'family': fam + ':constructed',
+                            'ops': setup + [start, dmg, conn, ['close'], conn, ['close'], ['exit']]})
+                out.append({'tables': tables, 'family': fam + ':prefetch',
+                            'ops': setup + [start, conn + [{'pre': {target: [dmg]}}], ['close'], conn, ['close'], ['exit']]})
+                out.append({'tables': tables, 'family': fam + ':between',
+                            'ops': setup + [start, conn, ['close'], dmg, conn, ['close'], ['exit']] +
+                            proc('none', 'A', conn)})
     return out
 
 
@@ -1131,10 +1222,21 @@ def random_scenarios(rng, n):
                 opt = {}
                 if rng.random() < 0.35:
                     opt = {'crash_after': rng.randint(0, 14), 'wk': rng.randint(1, 400)}
+                crashing = bool(opt)
+
+                def some_env():
+                    d, c = rng.choice(['A', 'B']), crc_str(rng.choice(crcs))
+                    return rng.choice([['remove', d, c], ['cut', d, c, rng.choice([0, 1, rng.randint(0, 600), -1])],
+                                       ['garbage', d, c, rng.choice(UNPARSABLE + FALSY + NOTATABLE)],
+                                       ['copy', d, c, 'B' if d == 'A' else 'A']])
+                if rng.random() < 0.25:     # the environment acts before a look-up of this connection
+                    opt['pre'] = {rng.choice(['log', 'param']): [some_env()]}
                 ops.append(['connect', lt, lc, pt, pc, opt] if opt else ['connect', lt, lc, pt, pc])
-                if opt:
+                if crashing:
                     break
                 ops.append(['close'])
+                if rng.random() < 0.25:     # ... or while the TocCache object is idle
+                    ops.append(some_env())
             else:
                 ops.append(['exit'])
             for _e in range(rng.randint(0, 2)):
@@ -1143,7 +1245,7 @@ def random_scenarios(rng, n):
                 if k == 'cut':
                     ops.append(['cut', d, c, rng.choice([0, 1, 2, rng.randint(0, 600), -1, -2])])
                 elif k == 'garbage':
-                    ops.append(['garbage', d, c, rng.choice(UNPARSABLE + FALSY)])
+                    ops.append(['garbage', d, c, rng.choice(UNPARSABLE + FALSY + NOTATABLE)])
                 elif k == 'remove':
                     ops.append(['remove', d, c])
                 else:
@@ -1162,6 +1264,25 @@ ENVMAP = {'Start': 'start', 'Connect': 'connect', 'Close': 'close', 'Exit': 'exi
 def _files_of(st):
     f = st.get('files')
     return f if isinstance(f, dict) else {}
+
+
+def _env_to_op(label, rng):
+    """label of an environment action of TocCache -> harness op (+ whether it cuts strictly inside a file)"""
+    name, args = tlc.parse_label(label)
+    x = tuple(args[0])
+    if name == 'Remove':
+        return ['remove', x[0], x[1]], False
+    if name == 'Copy':
+        return ['copy', x[0], x[1], args[1]], False
+    if name == 'Corrupt':
+        return ['garbage', x[0], x[1], rng.choice([v for v in FALSY if v != 'json_null'] if args[1] == 'falsy'
+                                                  else UNPARSABLE + NOTATABLE + ['json_null'])], False
+    if args[1] == 0:
+        return ['cut', x[0], x[1], 0], False
+    return ['cut', x[0], x[1], rng.random()], True
+
+
+ENV_ACTIONS = ('Corrupt', 'Remove', 'Copy', 'Truncate')
 
 
 def scenario_from_behaviour(beh, rng):
@@ -1183,7 +1304,6 @@ def scenario_from_behaviour(beh, rng):
     has_partial = False
     while j < n:
         name, st = names[j], beh[j][1]
-        prev = beh[j - 1][1]
         if name == 'Start':
             ops.append(['start', st['ro'], st['rw']])
             expect.append(('start', st))
@@ -1193,18 +1313,35 @@ def scenario_from_behaviour(beh, rng):
                     table_of('param', d['param']['tab']), int(d['param']['crc'], 16)]
             expect.append(('connect', st))
             k = j + 1
-            while k < n and names[k] in INTERNAL:
-                expect.append((INTERNAL[names[k]], beh[k][1]))
+            cnt = 0
+            env_at = {}
+            last_internal = None
+            while k < n and (names[k] in INTERNAL or names[k] in ENV_ACTIONS):
+                if names[k] in INTERNAL:
+                    expect.append((INTERNAL[names[k]], beh[k][1]))
+                    cnt += 1
+                    last_internal = k
+                else:                       # the environment acts before the look-up of a table
+                    op, hp = _env_to_op(beh[k][0], rng)
+                    env_at.setdefault(str(cnt), []).append(op)
+                    expect.append((ENVMAP[names[k]], beh[k][1]))
+                    has_partial = has_partial or hp
                 k += 1
-            cnt = k - (j + 1)
             last = beh[k - 1][1]
+            opt = {}
+            if env_at:
+                opt['env_at'] = env_at
             if (k < n and names[k] == 'Crash') or (k >= n and last['stage'] not in ('connected', 'failed')):
-                conn.append({'crash_after': cnt})
-                if cnt and names[k - 1] == 'WriteByte' and _files_of(last).get((last['wdir'], last['dev'][last['kind']]['crc']), {}).get('cut') == 1:
-                    has_partial = True
+                opt['crash_after'] = cnt
+                if last_internal is not None and names[last_internal] == 'WriteByte':
+                    ls = beh[last_internal][1]
+                    if _files_of(ls).get((ls['wdir'], ls['dev'][ls['kind']]['crc']), {}).get('cut') == 1:
+                        has_partial = True
                 if k < n:
                     expect.append(('crash', beh[k][1]))
                     k += 1
+            if opt:
+                conn.append(opt)
             ops.append(conn)
             j = k
             continue
@@ -1216,20 +1353,10 @@ def scenario_from_behaviour(beh, rng):
             expect.append(('exit', st))
         elif name == 'Crash':              # a crash outside a connect cannot happen (stage idle is excluded)
             expect.append(('crash', st))
-        elif name in ('Corrupt', 'Remove', 'Copy', 'Truncate'):
-            _nm, args = tlc.parse_label(beh[j][0])
-            x = tuple(args[0])
-            if name == 'Remove':
-                ops.append(['remove', x[0], x[1]])
-            elif name == 'Copy':
-                ops.append(['copy', x[0], x[1], args[1]])
-            elif name == 'Corrupt':
-                ops.append(['garbage', x[0], x[1], rng.choice([v for v in FALSY if v != 'json_null'] if args[1] == 'falsy' else UNPARSABLE + ['json_null'])])
-            elif args[1] == 0:
-                ops.append(['cut', x[0], x[1], 0])
-            else:
-                ops.append(['cut', x[0], x[1], rng.random()])
-                has_partial = True
+        elif name in ENV_ACTIONS:
+            op, hp = _env_to_op(beh[j][0], rng)
+            ops.append(op)
+            has_partial = has_partial or hp
             expect.append((ENVMAP[name], st))
         j += 1
     return {'tables': tables, 'ops': ops, 'project': True, 'family': 'tlc-behaviour'}, expect, has_partial
@@ -1256,7 +1383,7 @@ def _state_matches(p, st, tables, what):
         for c in {x[1] for x in ka}:
             if [x[0] for x in ka if x[1] == c] != [x[0] for x in kb if x[1] == c]:
                 return False
-        if what not in ('close', 'connect'):      # the library resets its tables inside open_link / close_link
+        if what not in ('close', 'connect') + ENV_OPS:   # the library resets its tables inside open_link / close_link
             for kd in ('log', 'param'):
                 if p['toc'][kd] != list(st['toc'][kd]):
                     return False
@@ -1378,7 +1505,7 @@ def main(tier, seed, replay=None):
     for cfg in cfgs:
         r = tlc.check('MC_TocCache.tla', cfg, coverage=not quick, timeout=3000, workers=TLC_WORKERS)
         out.add_tlc(cfg, r)
-    for b in ('suffix', 'partial', 'escape', 'rowrite', 'dropfield'):
+    for b in ('suffix', 'partial', 'escape', 'toctou', 'rowrite', 'dropfield'):
         rb = tlc.expect_violation('MC_TocCache.tla', 'MC_TocCache_bug_%s.cfg' % b, timeout=900, workers=TLC_WORKERS)
         out.sensitivity['spec:Bug=' + b] = 'refuted (%s) after %d states' % (rb.violated, rb.distinct)
 
@@ -1443,7 +1570,10 @@ def main(tier, seed, replay=None):
         scs += sweep_scenarios(tb, 0, LC, 1, PC, ln, 'rw_crash', 'log', chunk=12,
                                stride=1 if (not quick or ln[crc_str(LC)] == 2) else 5)
     scs += crash_everywhere_scenarios(base, 0, LC, 1, PC)
-    n_offsets = sum(sum(1 for o in sc['ops'] if o[0] == 'cut' or (o[0] == 'connect' and len(o) > 5)) for sc in scs)
+    scs += toctou_scenarios(base, 0, LC, 1, PC)
+    if not quick:
+        scs += toctou_scenarios(big, 0, LC, 1, PC)
+    n_offsets = sum(sum(1 for o in sc['ops'] if o[0] == 'cut' or (o[0] == 'connect' and len(o) > 5 and 'wk' in o[5])) for sc in scs)
     scs += garbage_scenarios(base, 0, LC, 1, PC, sorted(GARBAGE))
     if not quick:
         scs += garbage_scenarios(big, 0, LC, 1, PC, sorted(GARBAGE))
